@@ -88,7 +88,8 @@ def cases(tier, seed):
     out = []
     N = 5 if tier == "quick" else 7
     for nm in PAIRS:
-        out.append({"name": "pair:%s|N=%d" % (nm, N), "params": {"kind": "pair", "pair": nm, "N": N}, "budget_s": 3000})
+        n_ = 4 if (tier == "quick" and nm == "falsy-plus") else N  # five terminals: one character less keeps the quick tier short
+        out.append({"name": "pair:%s|N=%d" % (nm, n_), "params": {"kind": "pair", "pair": nm, "N": n_}, "budget_s": 3000})
     out.append({"name": "pair:imported|N=%d" % N, "params": {"kind": "pair", "pair": "__import__", "N": N}, "budget_s": 3000})
     for nm in GREEDY:
         out.append({"name": "greedy:%s|N=%d" % (nm, N), "params": {"kind": "greedy", "pair": nm, "N": N}, "budget_s": 3000})
